@@ -20,6 +20,7 @@ RULE = ('Hypothesis draws key recipes: primary of 7 algorithms/curves, 1-4 user 
         'verifies (PGPy + reference, third-party ones with their certifier); local signatures and only those are missing; copy exports identically. '
         'Non-trivial: >=2 identities and >=1 third-party/revocation signature, or >=2 signatures sharing a timestamp, or a concatenation.')
 RULE += ' Foreign layouts additionally use hashed areas with five-octet subpacket lengths / private-use subpackets / unknown flag bits and secret packets protected with salted, simple or iterated S2K; key packet bodies of an unchanged foreign key must be exported as imported; copy of the private key and twin of the copy export identically. Concatenations may repeat a certificate (A, B, A); trust packets of 2, 6 and 12 octets; user attributes with five-octet subpacket lengths and non-zero reserved octets; GnuPG stubs among the secret packets.'
+RULE += ' Concatenations also as armored blocks joined as text, with marker packets before and between the certificates, and with a certificate of an unsupported key version (v3, v5, v6; user id, signature and subkey behind it) in the middle, which must leave its neighbours unchanged.'
 ASSUMPTIONS = ['component order in the export is not asserted (PGPy orders identities by its own rule); attachment and multisets are',
                'refpgp.grammar parses by grammar position (signatures attach to the preceding key / user id / attribute / subkey)']
 
